@@ -236,10 +236,10 @@ macro_rules! c17_quick_sort_2_harness {
 c17_quick_sort_2_harness!(c17_quick_sort_2_r04, 0, 4, 2);
 
 // @harness id=c17_quick_sort_2_r13 props=C17 tier=quick cap=1200
-// @desc as c17_quick_sort_2_r04 for the inner range 1..3 (entries outside the range must stay untouched), no foreign outcomes
-// @bound vector of 4 arbitrary entries, range 1..3
+// @desc as c17_quick_sort_2_r04 for the inner range 1..3 (entries outside the range must stay untouched), with 1 unrelated outcome of an enclosing computation below this step's outcomes on cmp_ord_stack (it must stay untouched: a sort forced inside a key comparison of another sort)
+// @bound vector of 4 arbitrary entries, range 1..3, 1 foreign outcome below
 // @funcs Evaluator::do_std_sort_quick_sort_2
-c17_quick_sort_2_harness!(c17_quick_sort_2_r13, 1, 3, 0);
+c17_quick_sort_2_harness!(c17_quick_sort_2_r13, 1, 3, 1);
 
 // @harness id=c17_quick_sort_2_r14 props=C17 tier=attempt cap=1800
 // @desc as c17_quick_sort_2_r04 for the range 1..4 with 1 foreign outcome
